@@ -1,0 +1,71 @@
+//go:build verif
+
+package local
+
+import (
+	"perun.network/go-perun/channel"
+)
+
+// VerifCh is a copy of the bookkeeping the watcher keeps for one watched
+// channel. It is only compiled with the build tag "verif".
+type VerifCh struct {
+	ID                channel.ID
+	Parent            *channel.ID
+	SubChs            []channel.ID
+	Archived          map[channel.ID]channel.SignedState
+	Registered        bool
+	RegisteredVersion uint64
+	Published         bool
+	PublishedVersion  uint64
+	IsClosed          bool
+	DoneClosed        bool
+	MultiLedger       bool
+}
+
+// VerifSnapshot returns the bookkeeping of every channel in the registry.
+// Each channel is read while holding the mutex of its family.
+func (w *Watcher) VerifSnapshot() []VerifCh {
+	w.registry.mtx.Lock()
+	chs := make([]*ch, 0, len(w.registry.chs))
+	for _, c := range w.registry.chs {
+		chs = append(chs, c)
+	}
+	w.registry.mtx.Unlock()
+
+	out := make([]VerifCh, 0, len(chs))
+	for _, c := range chs {
+		root := c
+		if c.isSubChannel() {
+			root = c.parent
+		}
+		root.subChsAccess.Lock()
+		v := VerifCh{
+			ID:                c.id,
+			Archived:          make(map[channel.ID]channel.SignedState, len(c.archivedSubChStates)),
+			Registered:        c.registered,
+			RegisteredVersion: c.registeredVersion,
+			Published:         c.published,
+			PublishedVersion:  c.publishedVersion,
+			IsClosed:          c.isClosed,
+			MultiLedger:       c.multiLedger,
+		}
+		if c.parent != nil {
+			id := c.parent.id
+			v.Parent = &id
+		}
+		for id := range c.subChs {
+			v.SubChs = append(v.SubChs, id)
+		}
+		for id, s := range c.archivedSubChStates {
+			v.Archived[id] = s
+		}
+		select {
+		case <-c.done:
+			v.DoneClosed = true
+		default:
+		}
+		root.subChsAccess.Unlock()
+		out = append(out, v)
+	}
+	return out
+}
